@@ -2,6 +2,9 @@
 use std::collections::BTreeMap;
 use std::io::{BufWriter, Write};
 
+/// case tag: `c` for the stable build, `k` for the nightly build (histogram_const)
+pub const TAG: char = if cfg!(feature = "nightly") { 'k' } else { 'c' };
+
 pub struct Out {
     w: BufWriter<std::io::Stdout>,
     pub case: u64,
@@ -26,27 +29,27 @@ impl Out {
     pub fn note(&mut self, key: &str) { if self.active { *self.dist.entry(key.to_string()).or_insert(0) += 1; } }
     pub fn t(&mut self, ty: &str, op: &str, pre: &str, args: &str, res: &str) {
         if !self.active { return; }
-        writeln!(self.w, "T {} {} | {} | {} | {} #c{}", ty, op, pre, args, res, self.case).unwrap();
+        writeln!(self.w, "T {} {} | {} | {} | {} #{}{}", ty, op, pre, args, res, TAG, self.case).unwrap();
     }
     pub fn o(&mut self, kind: &str, sections: &[&str]) {
         if !self.active { return; }
         let mut s = format!("O {}", kind);
         for sec in sections { s.push_str(" | "); s.push_str(sec); }
-        writeln!(self.w, "{} #c{}", s, self.case).unwrap();
+        writeln!(self.w, "{} #{}{}", s, TAG, self.case).unwrap();
     }
     /// an oracle evaluated in the harness itself (bit-for-bit comparisons between implementation runs)
     pub fn x<F: FnOnce() -> String>(&mut self, cond: bool, msg: F) {
         if !self.active { return; }
         if cond { self.x_ok += 1; } else {
             self.x_fail += 1;
-            writeln!(self.w, "X {} FAIL {} #c{}", self.prop, msg(), self.case).unwrap();
+            writeln!(self.w, "X {} FAIL {} #{}{}", self.prop, msg(), TAG, self.case).unwrap();
         }
     }
     /// like `x`, for a violation that belongs to a recorded known finding (KNOWN_FINDINGS.txt, `key=`)
     pub fn x_known<F: FnOnce() -> String>(&mut self, cond: bool, key: &str, msg: F) {
         if !self.active { return; }
         if cond { self.x_ok += 1; } else {
-            writeln!(self.w, "X {} KNOWN {} {} #c{}", self.prop, key, msg(), self.case).unwrap();
+            writeln!(self.w, "X {} KNOWN {} {} #{}{}", self.prop, key, msg(), TAG, self.case).unwrap();
         }
     }
     pub fn comment(&mut self, s: &str) { if self.active { writeln!(self.w, "# {}", s).unwrap(); } }
